@@ -82,7 +82,7 @@ VS_WRITE("plus_assign_map", m += ct, X.rplus(t))
 VS_WRITE("mul_assign", m *= Y, X.compose(Y))
 VS_WRITE("mul_assign_map", m *= cy, X.compose(Y))
 VS_WRITE("coeff_write", m.coeffs()(Rep - 1) = mk_var("v0"), ([&]() { G E = X; E.coeffs()(Rep - 1) = mk_var("v0"); return E; })())
-#ifndef FAM_Rn
+#if !defined(FAM_Rn) && !defined(FAM_Bundle)
 VS_WRITE("normalize", m.normalize(), ([&]() { G E = X; E.normalize(); return E; })())
 #endif
 SCENARIO("write_setRandom") {
